@@ -460,6 +460,7 @@ func run(c *vh.Ctx) error {
 	probes(rn, res)
 
 	// ---- seeded cases ---------------------------------------------------------------------------
+	known, unmatched := 0, 0
 	n := c.N(2500, 40000)
 	if c.Search {
 		n *= 2
@@ -558,9 +559,21 @@ func run(c *vh.Ctx) error {
 			m := matcher(shr, f2)
 			rp := vh.WriteReplay(c.ReplayDir, prop, fmt.Sprintf("%s-seed%d-case%d", f2.kind, c.Seed, ci), c.Seed,
 				append([]string{"kind " + f2.kind, "matcher " + m}, commentLines(f2.what)...), shr)
-			res.Fail(f2.kind, m, f2.what, rp)
-			if len(res.Failures) >= 8 {
-				break
+			if m != "" {
+				// instances of a known finding: keep a few, keep going
+				known++
+				res.Dist("known-finding-instances:" + m)
+				if known <= 3 {
+					res.Fail(f2.kind, m, f2.what, rp)
+				} else {
+					os.Remove(rp)
+				}
+			} else {
+				res.Fail(f2.kind, m, f2.what, rp)
+				unmatched++
+				if unmatched >= 8 {
+					break
+				}
 			}
 		}
 	}
